@@ -21,9 +21,9 @@ META = {
     "rule": "a case = one generated hourly book world (ETH or BTC config, 1-3 instruments, 0-12 levels a side, int / "
     "float / 0.1-step sizes, cheap / mid / high / dyadic marks) and 1-3 segments of 1-12 buys and sells (market, "
     "limit on / near / off a level, usd-priced, capped, capped+limit; sizes from one step to whole side + 1 step, "
-    "fractional and tie amounts) separated by refreshes, plus per shard a few 'sweep' scenes (BTC books with 0.1-grid "
-    "sizes: market buys / sells of part of the best level followed by sweeps past it); every comparison with the "
-    "model is one evaluation. "
+    "fractional and tie amounts) separated by refreshes, plus per shard a few 'sweep' scenes (a BTC book with 0.1-grid "
+    "sizes: a market buy of part of the best ask, then a buy of exactly the rest of the side, then orders as above); "
+    "every comparison with the model is one evaluation. "
     "Non-trivial = an accepted fill touching >=2 levels, or any order (accepted or refused) that follows an earlier "
     "fill on the same side of the same book since the last refresh; distinct by (token, side, pricing mode, size "
     "class, levels touched, earlier fills bucket, decision class, outcome, size kind).",
@@ -113,12 +113,29 @@ def gen_book(rng, token, style, size_kind):
     return mark, out[0], out[1]
 
 
+def craft_sweep_sizes(rng, n):
+    """0.1-grid sizes for n >= 2 levels and a first fill a: the float difference size[0] - a is (visibly) below the
+    decimal one, while the binary values of what is then displayed still add up to the decimal total - a, so that an
+    order for exactly the rest of the side passes a size test made on the stored floats."""
+    for _ in range(20000):
+        s1 = rng.randint(2, 150) / 10
+        a = rng.randint(1, int(round(s1 * 10)) - 1) / 10
+        left, exact = s1 - a, Fraction(str(s1)) - Fraction(str(a))
+        if not (Fraction(left) < exact and F(left) != exact):
+            continue
+        rest = [rng.randint(1000, 40000) / 10 for _ in range(n - 1)]
+        if len(set(rest)) == len(rest) and Fraction(left) + sum(Fraction(x) for x in rest) >= exact + sum(
+                Fraction(str(x)) for x in rest) + Fraction(1, 10**20):
+            return [s1] + rest, Fraction(str(a))
+    return None
+
+
 class BookWorld(W.DeribitWorld):
     """DeribitWorld whose books are (mostly) replaced by more hostile ones: more levels, wide spacing (so that price
     caps split the book), prices above 0.1 with adjacent ticks, cheap options (the 12.5 % fee cap binds), dyadic
     marks (exact cap ties), BTC sizes on the 0.1 grid, marks with more digits than the fee step."""
 
-    def __init__(self, rng, token, n_instr, hours, style, size_kind):
+    def __init__(self, rng, token, n_instr, hours, style, size_kind, sweep=False):
         for _ in range(20):
             super().__init__(rng, hours=hours, n_instr=n_instr, token=token, closed_prob=0.0,
                              size_kind=size_kind if size_kind in ("int", "float", "mixed") else "mixed", level_max=8)
@@ -137,6 +154,23 @@ class BookWorld(W.DeribitWorld):
             self.data["mark_price"] = marks
             self.data["asks"] = pd.Series(asks, index=self.data.index, dtype=object)
             self.data["bids"] = pd.Series(bids, index=self.data.index, dtype=object)
+        self.sweep = None
+        if sweep:
+            # first instrument, first hour: >= 2 ask levels with crafted sizes (see craft_sweep_sizes)
+            ts0 = pd.Timestamp(self.hours[0])
+            name = sorted(str(x) for x in self.data.loc[ts0].index)[0]
+            for _ in range(50):
+                mk, a, b = gen_book(rng, token, rng.choice(["mid", "high"]), "float")
+                if len(a) >= 2:
+                    break
+            crafted = craft_sweep_sizes(rng, len(a)) if len(a) >= 2 else None
+            if crafted:
+                sizes, first = crafted
+                a = [[lv[0], sz] for lv, sz in zip(a, sizes)]
+                self.data.at[(ts0, name), "mark_price"] = mk
+                self.data.at[(ts0, name), "asks"] = a
+                self.data.at[(ts0, name), "bids"] = b
+                self.sweep = (name, first, sum((Fraction(str(x)) for x in sizes), Fraction(0)) - first)
         self.raw = {}
         for h in self.hours:
             ts = pd.Timestamp(h)
@@ -287,7 +321,7 @@ def check_state(cs: Case, m, eng: O.Engine, op, mode, moment, touched=None):
 # ------------------------------------------------------------------------------------------------ order generation
 def gen_order(rng, eng: O.Engine, names, force=None):
     """returns dict(is_buy, name, req (Fraction), limit, limit_usd, cap (Fractions or None), mode, size_class).
-    force (scene cases): {"name", "is_buy", "classes"} -> a market order on the step grid of one of these size classes."""
+    force (scene cases): {"name", "is_buy", "req"} -> a market order for exactly req."""
     step = eng.step
     name = rng.choice(names)
     held = eng.pos[name].amount if name in eng.pos else Fraction(0)
@@ -312,7 +346,7 @@ def gen_order(rng, eng: O.Engine, names, force=None):
         classes += ["held", "held+step", "part-held", "part-held"]
     sc = rng.choice(classes)
     if force:
-        sc = rng.choice(force["classes"])
+        sc = "scripted"
     if sc == "one-step":
         req = step
     elif sc == "part-best":
@@ -343,7 +377,7 @@ def gen_order(rng, eng: O.Engine, names, force=None):
     # fractional noise
     r = rng.random()
     if force:
-        r = 1.0
+        r, req = 1.0, force["req"]
     frac = "step"
     if r < 0.10:
         req = req + step / 2  # exact tie
@@ -596,10 +630,11 @@ def one_case(mon, rng, c, scene=None):
     size_kind = rng.choice(["int", "float", "mixed", "mixed", "one"])
     n_instr = rng.randint(1, 3)
     if scene == "sweep":
-        # sweeps over a partly consumed level on books whose sizes are on the 0.1 grid (23.4 - 0.1 is not a float
-        # difference): what is left of a level after a fill must be what the next order can take, to the digit
-        token, size_kind, style = "BTC", "float", rng.choice(["base", "any", "high", "mid"])
-    w = BookWorld(rng, token, n_instr, hours=3, style=style, size_kind=size_kind)
+        # a fill of part of the best level, then an order for exactly the rest of the side, on a book whose sizes are
+        # on the 0.1 grid (15.3 - 0.1 is not a float difference): the second order's fills must add up to the request,
+        # cash and averages must follow from them
+        token, size_kind, style = "BTC", "float", rng.choice(["any", "high", "mid"])
+    w = BookWorld(rng, token, n_instr, hours=3, style=style, size_kind=size_kind, sweep=scene == "sweep")
     m = w.market()
     from demeter.deribit import DeribitOptionMarket
 
@@ -612,7 +647,7 @@ def one_case(mon, rng, c, scene=None):
     eng.refresh(w.raw[w.hours[hour]])
     names = sorted(eng.books)
     # cash: plenty, or about the cost of part of one ask side (so that some buys cannot be paid)
-    if rng.random() < 0.3:
+    if rng.random() < 0.3 and scene is None:
         asks = eng.books[rng.choice(names)]["asks"]
         cost = sum((p * s for p, s in asks[: rng.randint(1, 4)]), Fraction(0)) * Fraction(rng.randint(30, 150), 100)
         cash0 = dec_of(max(cost, Fraction(1, 1000)), 6)
@@ -629,18 +664,14 @@ def one_case(mon, rng, c, scene=None):
     try:
         check_state(cs, m, eng, "refresh", "-", "initial-book")
         segments = rng.randint(1, 3)
+        if scene == "sweep" and w.sweep:
+            for req in w.sweep[1:]:
+                od = gen_order(rng, eng, names, {"name": w.sweep[0], "is_buy": True, "req": req})
+                if run_order(cs, m, eng, od, size_kind, False) == "filled":
+                    mon.hit("sweep-scene-fill")
         for seg in range(segments):
-            for k in range(rng.randint(1, 12) if scene is None else 8):
-                force = None
-                if scene == "sweep":
-                    # buy part of the best ask, sweep past it, again, take all that is left; then the same on the bid
-                    # side with what is held
-                    part = k % 2 == 0
-                    force = {"name": names[0], "is_buy": k < 4,
-                             "classes": ["part-best", "one-step"] if part else (["best+step", "multi"] if k % 4 == 1 else ["whole"])}
-                    if not force["is_buy"] and names[0] not in eng.pos:
-                        force["is_buy"] = True
-                od = gen_order(rng, eng, names, force)
+            for _ in range(rng.randint(1, 12)):
+                od = gen_order(rng, eng, names)
                 run_order(cs, m, eng, od, size_kind, seg > 0)
             if seg == segments - 1:
                 break
@@ -666,15 +697,13 @@ def one_case(mon, rng, c, scene=None):
 
 def run(spec, mon):
     n = spec["cases"]
-    n_scene = 4 if spec.get("tier", "quick") == "quick" else 60
+    n_scene = 2 if spec.get("tier", "quick") == "quick" else 40
     for c in range(n + n_scene):
         rng = mon.case_rng(c)
         if not mon.want(c):
             continue
         try:
             one_case(mon, rng, c, scene=None if c < n else "sweep")
-            if c >= n:
-                mon.hit("sweep-scene")
         except Exception as e:  # harness or code crashed in an unexpected place
             import traceback
 
@@ -685,7 +714,7 @@ def floors(merged, tier):
     out = []
     reach = merged["reach"]
     need = {"buy": 200, "sell": 60, "accepted": 100, "refused": 50, "multi-level-fill": 20, "after-earlier-fill": 50,
-            "refresh": 10}
+            "refresh": 10, "sweep-scene-fill": 6}
     for k, v in need.items():
         if reach.get(k, 0) < v:
             out.append(f"reach {k} = {reach.get(k, 0)} < {v}")
